@@ -48,7 +48,7 @@ def main():
                     result[c] = dict(alarm=bool(viol), classes=sorted(set(classes))[:6], summary=(last[-1] if last else out[-200:])[:200])
                     print(rid, c, "ALARM" if viol else "quiet", flush=True)
             finally:
-                sh(["git", "-C", "/repo", "checkout", "--", "."])
+                sh(["git", "-C", "/repo", "checkout", "--", "."]); sh(["git", "-C", "/repo", "clean", "-fdq"])  # a patch may add files
             agent = {}
             if os.path.exists(os.path.join(d, "meta.agent.json")):
                 agent = json.load(open(os.path.join(d, "meta.agent.json")))
@@ -56,7 +56,7 @@ def main():
                            alarms=[c for c, v in result.items() if v["alarm"]], result=result),
                       open(os.path.join(d, "result.json"), "w"), indent=1, ensure_ascii=False)
     finally:
-        sh(["git", "-C", "/repo", "checkout", "--", "."])
+        sh(["git", "-C", "/repo", "checkout", "--", "."]); sh(["git", "-C", "/repo", "clean", "-fdq"])  # a patch may add files
         shutil.rmtree(os.path.join(V, "evidence"), ignore_errors=True)
         shutil.move(save, os.path.join(V, "evidence"))
         sh([os.path.join(V, "bin", "extract")], cwd=V)
